@@ -7,11 +7,12 @@
        out = (the gathered candidates, each once, in some order) ++ [nil].
    It is refuted by c24_full_refuted (a candidate after the nil); what holds on
    every schedule is c24_candidates_once, c24_end_at_most_once and c24_partial
-   (everything except the position of the nil), and c24_partial_nopool (the
-   full statement when there is no pool). *)
+   (everything except the position of the nil), c24_partial_nopool (the full
+   statement when there is no pool) and c24_partial_atomic_flush (the position
+   of the nil when no flush is interleaved with the agent). *)
 From Coq Require Import List Arith.
 Import ListNotations.
-From Verif Require Import Model.Gather Proofs.Gather.
+From Verif Require Import Model.Gather Proofs.Gather Proofs.GatherAtomic.
 
 (* every gathered candidate is reported exactly once: never more often than it
    was gathered, at any moment of any schedule ... *)
@@ -72,6 +73,20 @@ Theorem c24_partial_nopool : forall cands nflush sch,
   (quiescent s = true -> out s = map Some cands ++ [None]).
 Proof. exact nopool_full. Qed.
 Print Assumptions c24_partial_nopool.
+
+(* with a pool the full statement holds on every schedule in which no
+   flushCandidates call is interleaved with the agent's callbacks (runF runs
+   each flush in one block; such runs are runs of the faithful model):
+   nothing is reported after the nil *)
+Theorem c24_partial_atomic_flush : forall poolsize cands nflush sch,
+  nil_last (out (runF (init poolsize cands nflush) sch)) = true.
+Proof. exact atomic_flush_order. Qed.
+Print Assumptions c24_partial_atomic_flush.
+
+Theorem c24_atomic_flush_runs_are_runs : forall sch s,
+  exists sch', runF s sch = run s sch'.
+Proof. exact runF_is_run. Qed.
+Print Assumptions c24_atomic_flush_runs_are_runs.
 
 (* premises are satisfiable: pool size 1, two candidates, two flushes interleaved *)
 Example c24_partial_nontrivial :
